@@ -32,6 +32,12 @@ ARRAYS = ('Vector', 'Matrix')     # parameters only: passed as double arrays, gu
 SCALARS = ('int', 'double', 'string', 'size_t') + ARRAYS
 
 
+def scalar_ret(r):
+    """scalar results are strings: a SCALARS name, or 'enum:<k>' (k-th entry of U['enums'], returned through wrap_enum);
+    object results are tuples"""
+    return isinstance(r, str)
+
+
 def ptype_iface(t, classes):
     if t in SCALARS:
         return t
@@ -57,10 +63,16 @@ def make_universe(seed, module, void_static=False):
     classes = []
     nchains = rng.choice([1, 2, 2, 3])
     use_ns = rng.random() < 0.5
+    # the namespaced chain lives one or TWO levels deep (separate random stream: the rest of the universe is what it was)
+    rng3 = random.Random(seed * 104729 + 11)
+    NS = rng3.choice(['ns', 'robot::arm', 'robot::arm'])
+    use_ns = use_ns or rng3.random() < 0.6
+    if nchains == 1 and rng3.random() < 0.5:
+        nchains = 2
     letters = 'ABCD'
     for ci in range(nchains):
         depth = rng.choice([0, 1, 1, 2, 2, 3]) if ci == 0 else rng.choice([0, 0, 1, 2])
-        ns = 'ns' if (use_ns and ci == nchains - 1 and nchains > 1) else ''
+        ns = NS if (use_ns and ci == nchains - 1 and nchains > 1) else ''
         allvirt = rng.choice([True, False, None])  # None: mixed
         if ci == 0:
             # three consecutive gateway seeds cover: an all-virtual chain, a chain of NON-virtual derived classes, a mixed one
@@ -74,8 +86,8 @@ def make_universe(seed, module, void_static=False):
             classes.append({
                 'name': name, 'ns': ns, 'base': prev, 'virtual': bool(virt),
                 'cpp': (ns + '::' if ns else '') + name,
-                'matlab': (ns + '.' if ns else '') + name,
-                'flat': ns + name,
+                'matlab': (ns.replace('::', '.') + '.' if ns else '') + name,
+                'flat': ns.replace('::', '') + name,
             })
             prev = len(classes) - 1
     # a plain class used as object-typed property (never has object properties itself)
@@ -261,13 +273,51 @@ def make_universe(seed, module, void_static=False):
         add({'kind': 'func', 'cls': None, 'name': 'gsum', 'params': [('string', 's', None)], 'ret': 'int'})
     if rng2.random() < 0.5:
         add({'kind': 'func', 'cls': None, 'name': 'vdot', 'params': [('Vector', 'v', None), ('Vector', 'w', None)], 'ret': 'int'})
+    # enumerations (results only: `out[0] = wrap_enum(value, "<MATLAB class of the enumeration>")` must name the generated
+    # enumeration file): one in the global namespace, one in the namespace of the namespaced chain, one inside a class
+    enums = [{'name': 'Tone', 'ns': '', 'cls': None, 'cpp': 'Tone', 'matlab': 'Tone', 'members': ['T0', 'T1', 'T2']}]
+    ns_classes = [k for k in range(n) if classes[k]['ns']]
+    if ns_classes:
+        ns_ = classes[ns_classes[0]]['ns']
+        enums.append({'name': 'Mode', 'ns': ns_, 'cls': None, 'cpp': ns_ + '::Mode', 'matlab': ns_.replace('::', '.') + '.Mode',
+                      'members': ['M0', 'M1']})
+    kc = rng3.choice([k for k in range(n) if k != plain])
+    enums.append({'name': 'Kind', 'ns': classes[kc]['ns'], 'cls': kc, 'cpp': classes[kc]['cpp'] + '::Kind',
+                  'matlab': classes[kc]['matlab'] + '.Kind', 'members': ['K0', 'K1', 'K2']})
+    for k in range(n):
+        if k == plain:
+            continue
+        for ei, en in enumerate(enums):
+            visible = (en['cls'] == k) if en['cls'] is not None else (en['ns'] == classes[k]['ns'])
+            if not visible or rng3.random() < 0.3:
+                continue
+            add({'kind': 'method', 'cls': k, 'name': 'e%s' % en['name'], 'const': True,
+                 'params': [('int', 'a', None)], 'ret': 'enum:%d' % ei})
+            if rng3.random() < 0.5:
+                add({'kind': 'static', 'cls': k, 'name': 'E%s' % en['name'], 'params': [('int', 'a', None), ('int', 'b', None)],
+                     'ret': 'enum:%d' % ei})
+    # free functions in namespaces, one of them two levels deep; an unrelated top-level namespace has the name of the inner one
+    # and declares a function of the same name and signature
+    if rng3.random() < 0.8:
+        add({'kind': 'func', 'cls': None, 'fns': 'imperial::units', 'name': 'toSI', 'params': [('int', 'a', None)], 'ret': 'int'})
+        if rng3.random() < 0.6:
+            add({'kind': 'func', 'cls': None, 'fns': 'units', 'name': 'toSI', 'params': [('int', 'a', None)], 'ret': 'int'})
+        if rng3.random() < 0.5:
+            t = anyclass()
+            add({'kind': 'func', 'cls': None, 'fns': 'imperial::units', 'name': 'build',
+                 'params': [('int', 'a', None)], 'ret': ('fresh', t, rng3.choice(descendants(t)))})
+        if rng3.random() < 0.5:
+            add({'kind': 'func', 'cls': None, 'fns': 'imperial', 'name': 'feet', 'params': [('int', 'a', None), ('string', 's', None)], 'ret': 'int'})
     for e in entities:
+        if e['kind'] == 'func' and e.get('fns'):
+            e['qname'] = e['fns'].replace('::', '.') + '.' + e['name']
+            continue
         if e['kind'] == 'ctor' or (e['kind'] in ('method', 'static', 'prop')):
             e['qname'] = classes[e['cls']]['cpp'].replace('::', '.') + '.' + e['name']
         else:
             e['qname'] = e['name']
     return {'module': module, 'seed': seed, 'classes': classes, 'entities': entities,
-            'plain': plain}
+            'plain': plain, 'enums': enums}
 
 
 # ---------------------------------------------------------------------------------------------
@@ -285,6 +335,8 @@ def iface_text(U):
     def ret_iface(r):
         if r is None:
             return 'void'
+        if scalar_ret(r) and r.startswith('enum:'):
+            return U['enums'][int(r[5:])]['cpp']
         if r in SCALARS:
             return r
         if r[0] in ('same', 'fresh', 'fetch'):
@@ -299,18 +351,36 @@ def iface_text(U):
         return ', '.join('%s %s%s' % (ptype_iface(t, classes), nm,
                                       '' if d is None else ' = ' + d) for t, nm, d in ps)
 
+    def open_ns(ns):
+        return ' '.join('namespace %s {' % x for x in ns.split('::'))
+
+    def close_ns(ns):
+        return '}' * len(ns.split('::'))
+
+    def enum_decl(en, ind=''):
+        return '%senum %s { %s };' % (ind, en['name'], ', '.join(en['members']))
+
+    for en in U.get('enums', []):
+        if en['cls'] is None and not en['ns']:
+            out.append(enum_decl(en))
     cur_ns = ''
     for k, c in enumerate(classes):
         if c['ns'] != cur_ns:
             if cur_ns:
-                out.append('}')
+                out.append(close_ns(cur_ns))
             if c['ns']:
-                out.append('namespace %s {' % c['ns'])
+                out.append(open_ns(c['ns']))
+                for en in U.get('enums', []):
+                    if en['cls'] is None and en['ns'] == c['ns']:
+                        out.append(enum_decl(en))
             cur_ns = c['ns']
         head = ('virtual ' if c['virtual'] else '') + 'class ' + c['name']
         if c['base'] is not None:
             head += ' : ' + classes[c['base']]['cpp']
         out.append(head + ' {')
+        for en in U.get('enums', []):
+            if en['cls'] == k:
+                out.append(enum_decl(en, '  '))
         for e in ents:
             if e.get('cls') != k:
                 continue
@@ -329,11 +399,12 @@ def iface_text(U):
         out.append('};')
         out.append('')
     if cur_ns:
-        out.append('}')
+        out.append(close_ns(cur_ns))
         out.append('')
     for e in ents:
         if e['kind'] == 'func':
-            out.append('%s %s(%s);' % (ret_iface(e['ret']), e['name'], params_iface(e['params'])))
+            decl = '%s %s(%s);' % (ret_iface(e['ret']), e['name'], params_iface(e['params']))
+            out.append('%s %s %s' % (open_ns(e['fns']), decl, close_ns(e['fns'])) if e.get('fns') else decl)
     out.append('')
     return '\n'.join(out)
 
@@ -436,6 +507,8 @@ def lib_text(U):
     def ret_cpp(r):
         if r is None:
             return 'void'
+        if scalar_ret(r) and r.startswith('enum:'):
+            return '::' + U['enums'][int(r[5:])]['cpp']
         if r in SCALARS:
             return 'std::string' if r == 'string' else r
         if r[0] in ('same', 'fresh', 'fetch'):
@@ -455,6 +528,11 @@ def lib_text(U):
             out.append('namespace %s { class %s; }' % (c['ns'], c['name']))
         else:
             out.append('class %s;' % c['name'])
+    # enumerations outside classes have a fixed underlying type, so that every int is a value of them
+    for en in U.get('enums', []):
+        if en['cls'] is None:
+            decl = 'enum %s : int { %s };' % (en['name'], ', '.join(en['members']))
+            out.append(('namespace %s { %s }' % (en['ns'], decl)) if en['ns'] else decl)
     out.append('')
     bodies = []
     order = [U['plain']] + [k for k in range(len(classes)) if k != U['plain']]
@@ -467,6 +545,9 @@ def lib_text(U):
         init_d = ('::%s(d)' % base) if base else 'c11::Tracked(d.idx)'
         out.append('class %s : public %s {' % (c['name'], ('::' + base) if base else 'c11::Tracked'))
         out.append(' public:')
+        for en in U.get('enums', []):
+            if en['cls'] == k:
+                out.append('  enum %s : int { %s };' % (en['name'], ', '.join(en['members'])))
         # property members
         for e in ents:
             if e.get('cls') == k and e['kind'] == 'prop':
@@ -510,8 +591,8 @@ def lib_text(U):
         out.append('')
     for e in ents:
         if e['kind'] == 'func':
-            bodies.append((e, 'inline %s %s(%s)' % (ret_cpp(e['ret']), e['name'],
-                                                    params_cpp(e['params']))))
+            bodies.append((e, '%sinline %s %s(%s)' % (('namespace %s {\n' % e['fns']) if e.get('fns') else '', ret_cpp(e['ret']), e['name'],
+                                                      params_cpp(e['params']))))
 
     def ret_expr(r, e):
         if r[0] == 'same':
@@ -543,6 +624,8 @@ def lib_text(U):
         r = e['ret']
         if r is None:
             pass
+        elif scalar_ret(r) and r.startswith('enum:'):
+            lines.append('  return static_cast<%s>(r_);' % ret_cpp(r))
         elif r in SCALARS:
             lines.append('  return (%s)r_;' % r)
         elif r[0] == 'pair' and r[1][0] == 'copy':
@@ -553,7 +636,7 @@ def lib_text(U):
             lines.append('  return std::make_pair(%s, %s);' % (ret_expr(r[1], e), ret_expr(r[2], e)))
         else:
             lines.append('  return %s;' % ret_expr(r, e))
-        out.append(head + ' {\n' + '\n'.join(lines) + '\n}')
+        out.append(head + ' {\n' + '\n'.join(lines) + '\n}' + ('\n}' if e.get('fns') else ''))
     out.append('')
     return '\n'.join(out)
 
